@@ -2,6 +2,7 @@
 // stdin: one case (val) per line; stdout: one observation (val) per line.
 mod fam_be;
 mod fam_fe;
+mod fam_sess;
 mod fam_valid;
 mod peer;
 mod shim;
@@ -21,6 +22,7 @@ fn run_case(c: &Val) -> Val {
         "valid" => fam_valid::run(args),
         "be" => fam_be::run(args),
         "fe" => fam_fe::run(args),
+        "sess" => fam_sess::run(args),
         "iovs" => {
             let lens: Vec<usize> = args[0].as_l().unwrap_or(&[]).iter().map(|v| v.as_u64().unwrap_or(0) as usize).collect();
             let skip = args[1].as_u64().unwrap_or(0) as usize;
